@@ -166,6 +166,7 @@ FEATURE_SETS = {
     "safe": "std-default,prohibit-unsafe",
     "index-safe": "std-default,index-positions,prohibit-unsafe",
     "alloc": "alloc-only",
+    "pattern": "std-default,pattern",
 }
 
 
@@ -360,22 +361,34 @@ ENGINE_RULE = ("(pattern AST from the generator, flags, haystack sampled from th
                "non-trivial = the search finds a match; distinct by (pattern, flags, haystack, start)")
 
 PLANS = {
+    "C20": dict(proofs=["Proofs.C20"], fset="pattern", toolchain="+nightly",
+                runs=[("c20", dict(quick=3000, thorough=100000))],
+                rule="(regex from pool/generator, haystack incl. multi-byte text, interleaving of next()/next_back() calls: all-forward, all-backward, 3 random); non-trivial = regex has a match; plus str::find/rfind/contains/matches/rmatches/split/rsplit compared with find_iter",
+                technique="Lean 4 proof of the Searcher/ReverseSearcher contract for the model of RegexSearcher (any interleaving tiles the haystack; Match steps = find_iter) + correspondence on nightly"),
+    "C06": dict(proofs=["Proofs.C06"], runs=[("engine", dict(quick=30000, thorough=1500000), ["--focus", "C06"]),
+                                             ("engine", dict(quick=30000, thorough=1500000), ["--focus", "C06"], {"profile": "checked"})],
+                rule=ENGINE_RULE,
+                technique="Lean 4 proof of a safety invariant of the executor models (no error site reachable, positions in range) + executor tie + range/boundary checks on the implementation"),
+    "C14": dict(proofs=["Proofs.C14"], fset="utf16",
+                runs=[("c14", dict(quick=20000, thorough=600000))],
+                rule="(pattern AST, flags, haystack, start): find_from_utf16 on the UTF-16 encoding with offsets translated back vs find_from on the string; find_from_ucs2 on BMP text; arbitrary u16 slices with lone surrogates from every start; non-trivial = match",
+                technique="Lean 4 proof about the UTF-16/UCS-2 decoder models (round trip, totality and range on arbitrary units, offset translation) + correspondence with the utf16 build"),
     "C10": dict(proofs=["Proofs.C10"], runs=[("c10", dict(quick=0, thorough=0))],
                 rule="every code point with a non-trivial case class in either source (quick: all below U+0250 and a quarter of the rest) x {i, iu, iv} x {literal, [c], [^c], (c)\\1} x every member of both classes; \\w \\W [\\w] [\\W] \\b for every such code point; non-trivial = c ≠ d equivalent",
                 technique="Lean 4 kernel evaluation over FOLDS / TO_UPPERCASE regenerated from the source vs ICU 78.2 snapshot, lifted to all code points; engine-level sweep of the same relation"),
     "C01": dict(proofs=["Proofs.C01"], runs=[("engine", dict(quick=30000, thorough=1500000), ["--focus", "C01"])],
                 rule=ENGINE_RULE,
                 technique="Lean 4 ES2025 specification (laws proved) as executable oracle: spec-vs-implementation differential on generated ASTs"),
-    "C04": dict(proofs=["Proofs.C04"], runs=[("engine", dict(quick=30000, thorough=1500000), ["--focus", "C04"])],
+    "C04": dict(proofs=["Proofs.C04"], runs=[("engine", dict(quick=30000, thorough=1500000), ["--focus", "C04"]),
+                                             ("compiler", dict(quick=20000, thorough=600000))],
                 rule=ENGINE_RULE,
                 technique="Lean 4 proof (prefilter transparency for any admissible scan; byte-scan and lead-byte lemmas) + executor tie + predicate-vs-Arbitrary differential"),
     "C02": dict(proofs=[], runs=[("engine", dict(quick=30000, thorough=1500000), ["--focus", "C02"])],
                 rule=ENGINE_RULE, technique="(proofs pending)"),
-    "C03": dict(proofs=[], runs=[("engine", dict(quick=30000, thorough=1500000), ["--focus", "C03"])],
+    "C03": dict(proofs=[], runs=[("engine", dict(quick=30000, thorough=1500000), ["--focus", "C03"]),
+                                 ("compiler", dict(quick=30000, thorough=900000))],
                 rule=ENGINE_RULE, technique="(proofs pending)"),
     "C05": dict(proofs=[], runs=[("engine", dict(quick=30000, thorough=1500000), ["--focus", "C05"])],
-                rule=ENGINE_RULE, technique="(proofs pending)"),
-    "C06": dict(proofs=[], runs=[("engine", dict(quick=30000, thorough=1500000), ["--focus", "C06"])],
                 rule=ENGINE_RULE, technique="(proofs pending)"),
     "C13": dict(proofs=[], runs=[("engine", dict(quick=30000, thorough=1500000), ["--focus", "C13"])],
                 rule=ENGINE_RULE, technique="(proofs pending)"),
@@ -388,7 +401,7 @@ PLANS = {
     "C11": dict(proofs=["Proofs.C11"], runs=[("c11", dict(quick=0, thorough=0))],
                 rule="every (kind, name) of the candidate universe (names of either side, all 2-letter names, mutations); non-trivial = accepted by ICU",
                 technique="Lean 4 kernel evaluation (decide +kernel) over tables regenerated from the source vs ICU 78.2 snapshot"),
-    "C12": dict(proofs=["Proofs.C12"], runs=[("c12sets", dict(quick=20000, thorough=400000)), ("c12classes", dict(quick=20000, thorough=600000))],
+    "C12": dict(proofs=["Proofs.C12"], runs=[("c12sets", dict(quick=20000, thorough=400000)), ("c12classes", dict(quick=60000, thorough=1500000))],
                 rule="(a) random well-formed interval sets over small and full universes x set operation, non-trivial = non-empty operands; (b) /^E$/ for generated class expressions E (legacy brackets; v-mode unions, &&, --, nesting, \\q strings, negation) x flags x every mentioned character, its case partners, range neighbours and mentioned strings with single-edit variants, expected answer from the ES specification model, non-trivial = match",
                 technique="Lean 4 proof of the CodePointSet algebra (all inputs) + correspondence through hook wrappers"),
     "C16": dict(proofs=["Proofs.C16"], runs=[("c16", dict(quick=2000, thorough=60000))],
@@ -470,7 +483,7 @@ def check(pid, tier, seed):
     if ok_build and not ok_a:
         broken.append({"tie": "audit", "detail": "\n".join(problems)})
 
-    okc, cout, binary = cargo_build("default")
+    okc, cout, binary = cargo_build(plan.get("fset", "default"), toolchain=plan.get("toolchain"))
     if not okc:
         broken.append({"tie": "cargo build of the harness against /repo", "detail": cout[-3000:]})
 
@@ -488,9 +501,28 @@ def check(pid, tier, seed):
                 args += ["--aux", aux]
             if cmd in ("c18", "c10"):
                 args += ["--aux", casefold_aux()]
-            rc, hout, rep = run_harness(binary, cmd, outdir, args)
+            run_binary = binary
+            if len(run_entry) > 3 and run_entry[3].get("profile"):
+                okp, pout, run_binary = cargo_build(plan.get("fset", "default"), profile=run_entry[3]["profile"], toolchain=plan.get("toolchain"))
+                if not okp:
+                    broken.append({"tie": "cargo build (%s profile)" % run_entry[3]["profile"], "detail": pout[-2000:]})
+                    continue
+                outdir = outdir + "-" + run_entry[3]["profile"]
+            rc, hout, rep = run_harness(run_binary, cmd, outdir, args)
             if rc != 0 or rep is None:
-                broken.append({"tie": "harness run " + cmd, "detail": hout[-3000:]})
+                # the process died (abort / segmentation fault / stack overflow): that is itself an observation.
+                # Re-run in the checked profile (debug assertions, overflow checks), where undefined behaviour
+                # surfaces as a per-case panic, to obtain the concrete input.
+                crash = {"kind": "panic", "what": "the harness process running the real engine died (exit status %s) during `%s`" % (rc, cmd),
+                         "case": "rvharness %s %s" % (cmd, " ".join(args))}
+                okp, pout, cbin = cargo_build(plan.get("fset", "default"), profile="checked", toolchain=plan.get("toolchain"))
+                rc2, hout2, rep2 = run_harness(cbin, cmd, outdir + "-checked", args) if okp else (1, "", None)
+                if rep2 is not None and rep2["violations"]:
+                    for v in rep2["violations"]:
+                        v["what"] = "(release build crashed; checked build reports) " + v["what"]
+                        violations.append(v)
+                else:
+                    violations.append(crash)
                 continue
             stats["evaluations"] = stats.get("evaluations", 0) + rep["evaluations"]
             stats["distinct_nontrivial"] = stats.get("distinct_nontrivial", 0) + rep["distinct_nontrivial"]
